@@ -168,7 +168,162 @@ def run():
     return facts
 
 
-EXTRA_EXTRACTORS = []
+def names_in(node):
+    return {n.id for n in ast.walk(node) if isinstance(n, ast.Name)} | {
+        n.attr for n in ast.walk(node) if isinstance(n, ast.Attribute)
+    }
+
+
+def guarded_by_structure(call, root):
+    """is `call` (a Call node) inside an `if cls.structure is not None:` within root?"""
+    for node in ast.walk(root):
+        if isinstance(node, ast.If) and "structure" in names_in(node.test):
+            for ch in node.body:
+                for sub in ast.walk(ch):
+                    if sub is call:
+                        return True
+    return False
+
+
+def pytree_skel(facts):
+    pyt = parse("_pytree_type.py")
+    chk = find_def(pyt, "_MetaPyTree", "_check")
+    sk = {"flattenInFinally": "unknown", "flattenRestores": "unknown", "treepathInFinally": "unknown", "treepathGuarded": "unknown"}
+    facts["pytree_skel"] = sk
+    if chk is None:
+        return
+    for node in ast.walk(chk):
+        if isinstance(node, ast.Try) and calls_in(node.body, "tree_flatten"):
+            clears = calls_in(node.finalbody, "clear_treeflatten_memo")
+            sk["flattenInFinally"] = bool(clears)
+            if clears:
+                # re-entrant iff the clear is conditional on a value read from get_treeflatten_memo()
+                # before the flag was set
+                saved = {
+                    st.targets[0].id
+                    for st in ast.walk(chk)
+                    if isinstance(st, ast.Assign) and len(st.targets) == 1 and isinstance(st.targets[0], ast.Name)
+                    and call_name(st.value) == "get_treeflatten_memo"
+                }
+                cond = [n for n in node.finalbody if isinstance(n, ast.If) and calls_in(n.body, "clear_treeflatten_memo")]
+                if cond and all(names_in(c.test) & saved for c in cond) and len(cond) == len([n for n in node.finalbody]):
+                    sk["flattenRestores"] = True
+                elif not cond:
+                    sk["flattenRestores"] = False
+            else:
+                sk["flattenRestores"] = False
+        if isinstance(node, ast.Try) and calls_in(node.body, "set_treepath_memo"):
+            fin = calls_in(node.finalbody, "clear_treepath_memo")
+            sk["treepathInFinally"] = bool(fin)
+            inner = calls_in(node.body, "clear_treepath_memo")
+            allc = fin + inner
+            if allc and all(guarded_by_structure(c, node) for c in allc):
+                sk["treepathGuarded"] = True
+            elif allc and not any(guarded_by_structure(c, node) for c in allc):
+                sk["treepathGuarded"] = False
+    # flatten try not found at all
+    if sk["flattenInFinally"] == "unknown" and calls_in([chk], "set_treeflatten_memo"):
+        sk["flattenInFinally"] = False
+        sk["flattenRestores"] = False
+    if sk["treepathInFinally"] == "unknown" and calls_in([chk], "set_treepath_memo"):
+        sk["treepathInFinally"] = False
+
+
+def stmt_index(body, pred):
+    for i, st in enumerate(body):
+        if pred(st):
+            return i
+    return None
+
+
+def wrapper_facts(fn):
+    """facts about one `wrapped_fn(*args, **kwargs)` definition"""
+    out = {"popInFinally": "unknown", "bindBeforePush": "unknown", "disableTestFirst": "unknown"}
+    body = [st for st in fn.body if not (isinstance(st, ast.Assign) and isinstance(st.targets[0], ast.Name) and st.targets[0].id == "__tracebackhide__")]
+    i_bind = stmt_index(body, lambda st: bool(calls_in([st], "bind")) and not isinstance(st, (ast.Try, ast.If)))
+    i_push = stmt_index(body, lambda st: bool(calls_in([st], "push_shape_memo")) and not isinstance(st, (ast.Try, ast.If)))
+    i_try = stmt_index(body, lambda st: isinstance(st, ast.Try) and bool(calls_in(st.finalbody, "pop_shape_memo")))
+    if i_push is not None:
+        out["popInFinally"] = i_try is not None and i_try == i_push + 1
+        if i_bind is not None:
+            out["bindBeforePush"] = i_bind < i_push
+    i_dis = stmt_index(body, lambda st: isinstance(st, ast.If) and "jaxtyping_disable" in names_in(st.test))
+    if i_dis is not None:
+        st = body[i_dis]
+        test_ok = isinstance(st.test, ast.BoolOp) and isinstance(st.test.op, ast.Or) and not any(isinstance(n, ast.Not) for n in ast.walk(st.test))
+        returns_bare = any(isinstance(x, ast.Return) and call_name(x.value) == "fn" for x in st.body)
+        out["disableTestFirst"] = i_dis == 0 and test_ok and returns_bare and "__no_type_check__" in {
+            n.value for n in ast.walk(st.test) if isinstance(n, ast.Constant) and isinstance(n.value, str)
+        }
+    else:
+        out["disableTestFirst"] = False
+    return out
+
+
+def decorator_skel(facts):
+    dec = parse("_decorator.py")
+    jt = None
+    for node in dec.body:
+        if isinstance(node, ast.FunctionDef) and node.name == "jaxtyped":
+            jt = node  # the last definition (earlier ones are @overload stubs)
+    w = {k: "unknown" for k in ["newPopInFinally", "oldPopInFinally", "ctxExitPopsAlways", "newBindBeforePush", "oldBindBeforePush", "disableTestFirst", "annErrFirst", "messageCurrent"]}
+    facts["wrap_skel"] = w
+    if jt is None:
+        return
+    wrappers = [n for n in ast.walk(jt) if isinstance(n, ast.FunctionDef) and n.name == "wrapped_fn"]
+    for fn in wrappers:
+        f = wrapper_facts(fn)
+        if calls_in([fn], "wrapped_fn_impl"):
+            w["newPopInFinally"], w["newBindBeforePush"], w["disableTestFirst"] = f["popInFinally"], f["bindBeforePush"], f["disableTestFirst"]
+        else:
+            w["oldPopInFinally"], w["oldBindBeforePush"] = f["popInFinally"], f["bindBeforePush"]
+    ctx = find_def(dec, "_JaxtypingContext", "__exit__")
+    if ctx is not None:
+        w["ctxExitPopsAlways"] = any(isinstance(st, ast.Expr) and call_name(st.value) == "pop_shape_memo" for st in ctx.body) and not any(isinstance(st, ast.Return) for st in ctx.body[:1])
+    ent = find_def(dec, "_JaxtypingContext", "__enter__")
+    facts["ctx_enter_pushes"] = ent is not None and bool(calls_in([ent], "push_shape_memo"))
+    impl_fn = None
+    for n in ast.walk(jt):
+        if isinstance(n, ast.FunctionDef) and n.name == "wrapped_fn_impl":
+            impl_fn = n
+    if impl_fn is not None:
+        tries = [n for n in ast.walk(impl_fn) if isinstance(n, ast.Try) and (calls_in(n.body, "param_fn") or calls_in(n.body, "full_fn"))]
+        ok = len(tries) == 2
+        for t in tries:
+            hs = t.handlers
+            first = hs[0] if hs else None
+            ok = ok and first is not None and handler_class(first) == "AnnotationError" and any(isinstance(s, ast.Raise) and s.exc is None for s in first.body)
+            ok = ok and any(handler_class(h) == "Exception" for h in hs[1:])
+        w["annErrFirst"] = ok
+        ss = calls_in([impl_fn], "shape_str")
+        if ss and all(len(c.args) == 1 and call_name(c.args[0]) == "get_shape_memo" for c in ss):
+            w["messageCurrent"] = True
+        elif ss and all(len(c.args) == 1 and isinstance(c.args[0], ast.Name) for c in ss):
+            w["messageCurrent"] = False
+        # fn is called exactly once on the accepted path
+        facts["impl_fn_calls"] = len([c for c in calls_in([impl_fn], "fn") if isinstance(c.func, ast.Name)])
+
+
+EXTRA_EXTRACTORS = [pytree_skel, decorator_skel]
+
+
+def skel_request(facts):
+    """the `skel` / `wrap` parameters the driver needs to run the model the way the source reads"""
+    ar, pr, ps = facts["array_rollback"], facts["pytree_rollback"], facts["pytree_skel"]
+
+    def b(v, default):
+        return default if v == "unknown" else bool(v)
+
+    skel = {
+        "arrayCatch": "base" if ar["catch"] == "baseException" else "exception",
+        "pytreeCatch": "base" if pr["catch"] == "baseException" else "exception",
+        "flattenInFinally": b(ps["flattenInFinally"], True),
+        "flattenRestores": b(ps["flattenRestores"], False),
+        "treepathInFinally": b(ps["treepathInFinally"], True),
+        "treepathGuarded": b(ps["treepathGuarded"], False),
+    }
+    wrap = {k: b(v, True) for k, v in facts["wrap_skel"].items()}
+    return skel, wrap
 
 
 def catch_lean(c):
@@ -210,6 +365,35 @@ def storageCells : List (String × Bool) := [{rows}]
 end JV.Generated
 """
     write_if_changed(os.path.join(GEN, "Storage.lean"), txt)
+
+    def ob(v):
+        return "none" if v == "unknown" else ("some true" if v else "some false")
+
+    ps, ws = facts["pytree_skel"], facts["wrap_skel"]
+    txt = f"""/- GENERATED by harness/extract.py from {SRC} on every run. Do not edit. -/
+namespace JV.Generated
+
+/-! exception skeleton of `_MetaPyTree._check` (`none` = construct not recognised) -/
+def flattenInFinally : Option Bool := {ob(ps['flattenInFinally'])}
+def flattenRestores : Option Bool := {ob(ps['flattenRestores'])}
+def treepathInFinally : Option Bool := {ob(ps['treepathInFinally'])}
+def treepathGuarded : Option Bool := {ob(ps['treepathGuarded'])}
+
+/-! skeleton of the `jaxtyped` wrappers and of `jaxtyped("context")` -/
+def newPopInFinally : Option Bool := {ob(ws['newPopInFinally'])}
+def oldPopInFinally : Option Bool := {ob(ws['oldPopInFinally'])}
+def ctxExitPopsAlways : Option Bool := {ob(ws['ctxExitPopsAlways'])}
+def newBindBeforePush : Option Bool := {ob(ws['newBindBeforePush'])}
+def oldBindBeforePush : Option Bool := {ob(ws['oldBindBeforePush'])}
+def disableTestFirst : Option Bool := {ob(ws['disableTestFirst'])}
+def annErrFirst : Option Bool := {ob(ws['annErrFirst'])}
+def messageCurrent : Option Bool := {ob(ws['messageCurrent'])}
+/-- number of syntactic calls of the wrapped function inside `wrapped_fn_impl` -/
+def implFnCalls : Nat := {facts.get('impl_fn_calls', 0)}
+
+end JV.Generated
+"""
+    write_if_changed(os.path.join(GEN, "Skeleton.lean"), txt)
     for r in EXTRA_RENDERERS:
         r(facts)
 
